@@ -273,7 +273,7 @@ func followRule(r *node, ctx *Ctx) (err error) {
 				ch := &r.child[i]
 				if ch.typ == typeCase {
 					if ch.caseStaticL {
-						ok = ctx.cmp(r.switchArg, opEq, bytealg.Trim(ch.caseL, quotes))
+						ok = ctx.cmp(r.switchArg, opEq, unquote(ch.caseL))
 					} else {
 						ctx.get(ch.caseL, nil)
 						if ctx.Err == nil {
@@ -326,10 +326,10 @@ func followRule(r *node, ctx *Ctx) (err error) {
 						}
 						if sr {
 							// Right side is static.
-							ok = ctx.cmp(ch.caseL, ch.caseOp, bytealg.Trim(ch.caseR, quotes))
+							ok = ctx.cmp(ch.caseL, ch.caseOp, unquote(ch.caseR))
 						} else if sl {
 							// Left side is static.
-							ok = ctx.cmp(ch.caseR, ch.caseOp.Swap(), bytealg.Trim(ch.caseL, quotes))
+							ok = ctx.cmp(ch.caseR, ch.caseOp.Swap(), unquote(ch.caseL))
 						} else {
 							// Both sides aren't static.
 							ctx.get(ch.caseR, nil)
